@@ -17,6 +17,7 @@ import (
 	"strconv"
 	"strings"
 	"sync"
+	"sync/atomic"
 	"time"
 
 	"github.com/bytom/bytom/protocol/bc"
@@ -44,6 +45,7 @@ type call struct {
 	Vote   int    `json:"vote"`
 	I      int    `json:"i"`
 	R      string `json:"r"`
+	Vs     []int  `json:"vs"`
 }
 type link struct {
 	V int `json:"v"`
@@ -60,6 +62,10 @@ type obs struct {
 	Status  map[string]string `json:"status"`
 	Links   []link            `json:"links"`
 	Posted  []link            `json:"posted"`
+	Devs    []struct {
+		T int `json:"t"`
+		S int `json:"s"`
+	} `json:"devs"`
 	Ticks   int               `json:"ticks"`
 }
 type step struct {
@@ -117,7 +123,6 @@ func replay(steps []step, n, me int) *divergence {
 	release := make(chan struct{})
 	sentinels := map[bc.Hash]chan struct{}{}
 	var smu sync.Mutex
-	var sentinelSeq uint64
 	casper.VerifLoopGate = func(h bc.Hash) {
 		smu.Lock()
 		ch, ok := sentinels[h]
@@ -144,8 +149,7 @@ func replay(steps []step, n, me int) *divergence {
 	pending := 0 // loop iterations known to wait at the gate
 	// sync waits until the loop is either idle (sentinel consumed) or waiting at the gate
 	syncLoop := func() bool {
-		sentinelSeq++
-		s := bc.Hash{V0: 0xfeedface, V1: sentinelSeq}
+		s := bc.Hash{V0: 0xfeedface, V1: atomic.AddUint64(&sentinelSeq, 1)}
 		ch := make(chan struct{})
 		smu.Lock()
 		sentinels[s] = ch
@@ -188,6 +192,13 @@ func replay(steps []step, n, me int) *divergence {
 			continue
 		case "makevote":
 			votes[c.ID] = &vote{v: c.V, s: c.S, t: c.T, ok: c.Ok, msg: node.SignVote(c.V, w.Blocks[c.S].Hash(), w.Blocks[c.T].Hash(), c.Ok)}
+			continue
+		case "makequorum":
+			vs := append([]int{}, c.Vs...)
+			sort.Ints(vs)
+			for k, v := range vs {
+				votes[c.ID+k] = &vote{v: v, s: c.S, t: c.T, ok: true, msg: node.SignVote(v, w.Blocks[c.S].Hash(), w.Blocks[c.T].Hash(), true)}
+			}
 			continue
 		case "carry":
 			carried[c.B] = append(carried[c.B], c.Vote)
@@ -367,6 +378,12 @@ func replay(steps []step, n, me int) *divergence {
 		if !node.SetEq(st.Obs.InMain, o.InMain) {
 			return &divergence{i, "C11", "inmain", fmt.Sprintf("after %s: InMainChain true for %v, specification says %v", what, node.Keys2(o.InMain), st.Obs.InMain)}
 		}
+		if len(st.Obs.Devs) > 0 {
+			// the node matched the specification in its code-mirroring variant: it justified a checkpoint from a
+			// source that was not justified (property C17 demands a justified source)
+			d := st.Obs.Devs[0]
+			return &divergence{i, "C17", "justified-from-unjustified-source", fmt.Sprintf("checkpoint %d was justified by a supermajority link from checkpoint %d although %d was not justified at this node (and, being its direct parent, %d may get finalized that way)", d.T, d.S, d.S, d.S)}
+		}
 	}
 	return nil
 }
@@ -401,6 +418,7 @@ func main() {
 			stride, _ = strconv.Atoi(args[3])
 		}
 		crashMode := len(args) > 4 && args[4] == "crash"
+		inconclusive := 0
 		points := 0
 		cases, calls := 0, 0
 		shapes := map[string]bool{}
@@ -434,6 +452,8 @@ func main() {
 					calls++
 				case "makevote":
 					sh += fmt.Sprintf("k%d.%d.%d.%v,", s.Call.V, s.Call.S, s.Call.T, s.Call.Ok)
+				case "makequorum":
+					sh += fmt.Sprintf("q%d.%d.%v,", s.Call.S, s.Call.T, s.Call.Vs)
 				case "carry":
 					sh += fmt.Sprintf("c%d.%d,", s.Call.B, s.Call.Vote)
 				case "tick":
@@ -452,8 +472,15 @@ func main() {
 				}
 				return nil
 			}
-			if d := replay(st, nv, me); d != nil {
-				vh.Violation(d.Prop+":"+st[d.Step].Call.Op+":"+d.What, d.Msg, map[string]interface{}{"engine": "casper", "N": nv, "Me": me, "steps": st, "diverges_at": d.Step, "prop": d.Prop, "also": alsoProps(d)})
+			dv := replay(st, nv, me)
+			if dv != nil && dv.What != "justified-from-unjustified-source" && len(st) > 0 && st[len(st)-1].Obs != nil && len(st[len(st)-1].Obs.Devs) > 0 {
+				// the path passes through the recorded deviation (justification from an unjustified source): a node that
+				// does not follow the code-mirroring specification there cannot be judged against it
+				inconclusive++
+				dv = nil
+			}
+			if dv != nil {
+				vh.Violation(dv.Prop+":"+st[dv.Step].Call.Op+":"+dv.What, dv.Msg, map[string]interface{}{"engine": "casper", "N": nv, "Me": me, "steps": st, "diverges_at": dv.Step, "prop": dv.Prop, "also": alsoProps(dv)})
 			}
 			if cases%4000 == 11 {
 				vh.Sample(st)
@@ -463,7 +490,7 @@ func main() {
 		if err != nil {
 			vh.Fatal("worker: %v", err)
 		}
-		vh.Summary(map[string]interface{}{"partial": true, "cases": cases, "calls": calls, "distinct": len(shapes), "crash_points": points})
+		vh.Summary(map[string]interface{}{"partial": true, "cases": cases, "calls": calls, "distinct": len(shapes), "crash_points": points, "inconclusive_after_deviation": inconclusive})
 		return
 	}
 	mode := "replay"
